@@ -721,6 +721,10 @@ func storedFresh2(v ssa.Value, fa *ssa.FieldAddr, name string, seen map[ssa.Valu
 		if b, ok := x.Call.Value.(*ssa.Builtin); ok && b.Name() == "append" {
 			return storedFresh2(x.Call.Args[0], fa, name, seen)
 		}
+		// a helper of the package that returns a slice it allocated itself (every return is fresh)
+		if g := core.StaticCallee(x); g != nil && len(g.Blocks) > 0 && g.Signature.Results().Len() == 1 {
+			return returnsFreshSlice(g, map[*ssa.Function]bool{})
+		}
 	case *ssa.Phi:
 		for _, e := range x.Edges {
 			if !storedFresh2(e, fa, name, seen) {
@@ -735,4 +739,54 @@ func storedFresh2(v ssa.Value, fa *ssa.FieldAddr, name string, seen map[ssa.Valu
 		}
 	}
 	return false
+}
+
+// returnsFreshSlice: every value g returns is a slice allocated inside g (make, composite literal, nil, appends to those).
+func returnsFreshSlice(g *ssa.Function, open map[*ssa.Function]bool) bool {
+	if open[g] {
+		return true
+	}
+	open[g] = true
+	var fresh func(v ssa.Value, seen map[ssa.Value]bool) bool
+	fresh = func(v ssa.Value, seen map[ssa.Value]bool) bool {
+		if seen[v] {
+			return true
+		}
+		seen[v] = true
+		switch x := v.(type) {
+		case *ssa.Const:
+			return x.Value == nil
+		case *ssa.MakeSlice:
+			return true
+		case *ssa.Slice:
+			_, isAlloc := x.X.(*ssa.Alloc)
+			return isAlloc
+		case *ssa.Phi:
+			for _, e := range x.Edges {
+				if !fresh(e, seen) {
+					return false
+				}
+			}
+			return true
+		case *ssa.Call:
+			if b, ok := x.Call.Value.(*ssa.Builtin); ok && b.Name() == "append" {
+				return fresh(x.Call.Args[0], seen)
+			}
+			if h := core.StaticCallee(x); h != nil && len(h.Blocks) > 0 && h.Signature.Results().Len() == 1 {
+				return returnsFreshSlice(h, open)
+			}
+		}
+		return false
+	}
+	ok := true
+	n := 0
+	for _, b := range g.Blocks {
+		if ret, isRet := b.Instrs[len(b.Instrs)-1].(*ssa.Return); isRet && len(ret.Results) == 1 {
+			n++
+			if !fresh(ret.Results[0], map[ssa.Value]bool{}) {
+				ok = false
+			}
+		}
+	}
+	return ok && n > 0
 }
